@@ -34,6 +34,7 @@ ASSUMPTIONS = [
     "regressors without intercept (Yhat = X W is what the sample-space projector formula assumes)",
     "comparison tolerance 1e-6 relative (1e-5 for randomized)",
 ]
+RULE = RULE + " " + pc._routes_rule() + " One case in 40 adds a table of more than 4096 rows (the data stacked r times against the data times sqrt r)."
 MIX = (0.0, 0.05, 0.5, 0.5, 0.95, 1.0)
 
 
